@@ -17,24 +17,24 @@
    drift (reported pattern differs from the implementation-shaped prediction).                              *)
 EXTENDS Glob, Json, IOUtils
 Rows == JsonDeserialize(IOEnv.VF_IN)
-VARIABLE i
-Init == i \in 1..Len(Rows)
-Next == UNCHANGED i
+VARIABLE rowno    \* (not "i": a variable named like a bound identifier of Glob stops TLC caching its tables)
+Init == rowno \in 1..Len(Rows)
+Next == UNCHANGED rowno
 
 Cand(L) == UNION {MT[L[k].pat] \cup CT[L[k].pat] : k \in DOMAIN L}
 HitNames(r) == {IndexOf[r.hits[k].name] : k \in DOMAIN r.hits}
-ObsAt(r, n) ==
-    IF \E k \in DOMAIN r.hits : r.hits[k].name = NameSeq[n]
-    THEN LET h == r.hits[CHOOSE k \in DOMAIN r.hits : r.hits[k].name = NameSeq[n]] IN [f \in Range(r.obs) |-> h[f]]
-    ELSE [f \in Range(r.obs) |-> 0]
+ObsRec(r, h) == [f \in Range(r.obs) |-> h[f]]
+Zero(r)      == [f \in Range(r.obs) |-> 0]
 Proj(h) == [name |-> h.name, eg |-> h.eg, g |-> h.g, og |-> h.og]
 HitSet(hs) == {Proj(hs[k]) : k \in {j \in DOMAIN hs : hs[j].eg # 0 \/ hs[j].g # 0 \/ hs[j].og # 0}}
 ChunkOK(r) == LET B == {h \in HitSet(r.hits) : h.name \in Range(r.fon)} IN
               \A k \in DOMAIN r.fills : HitSet(r.fills[k].hits) = B
-Judge(r) == LET J == Cand(r.L) \cup HitNames(r) IN
-    [failed |-> UNION {Failed(r.L, n, ObsAt(r, n)) : n \in J}
+Judge(r) == LET Q == Cand(r.L) \ HitNames(r)  z == Zero(r) IN        \* Q: names that match but were reported by nobody
+    [failed |-> UNION {Failed(r.L, IndexOf[r.hits[k].name], ObsRec(r, r.hits[k])) : k \in DOMAIN r.hits}
+                \cup UNION {Failed(r.L, n, z) : n \in Q}
                 \cup (IF ChunkOK(r) THEN {} ELSE {"chunk"}) \cup (IF r.nn = NN THEN {} ELSE {"coverage"}),
-     drift  |-> \E n \in J : Drift(r.L, n, ObsAt(r, n))]
+     drift  |-> \/ \E k \in DOMAIN r.hits : Drift(r.L, IndexOf[r.hits[k].name], ObsRec(r, r.hits[k]))
+                \/ \E n \in Q : Drift(r.L, n, z)]
 Bad == SelectSeq([k \in 1..Len(Rows) |-> LET j == Judge(Rows[k]) IN
                     [row |-> k, failed |-> SetToSeq(j.failed), drift |-> j.drift]],
                  LAMBDA r : r.failed # <<>> \/ r.drift)
